@@ -717,6 +717,18 @@ instantiate_generic_function(const ASTNode *func,
     // 型パラメータを置換
     substitute_type_parameters(instantiated.get(), type_map);
 
+    // return_types is not cloned (see clone_ast_node): rebuild the declared
+    // return type from the substituted return type name, so that the result of
+    // an instantiated function is range-checked like that of a hand-written one
+    if (!func->return_types.empty() &&
+        !instantiated->return_type_name.empty()) {
+        TypeInfo declared = resolve_substituted_type_info(
+            instantiated->return_type_name, TYPE_UNKNOWN);
+        if (declared != TYPE_UNKNOWN) {
+            instantiated->return_types.assign(1, declared);
+        }
+    }
+
     // ジェネリックフラグをクリア（インスタンス化済み）
     instantiated->is_generic = false;
     instantiated->type_parameters.clear();
